@@ -105,8 +105,12 @@ func Case(w *vt.W, rng *rand.Rand, id, maxLen int) {
 	var Q []byte
 	var plants []Plant
 	nplants := 1 + rng.Intn(3)
-	place := func(q []byte, tsrc []byte, ta int) (int, int, bool, int, int, []byte) {
+	// maxLn bounds the copy (indels included) so that it fits its slot
+	place := func(tsrc []byte, ta, maxLn int) (int, int, bool, int, int, []byte) {
 		ln := minLen*3/2 + rng.Intn(minLen*2)
+		if ln > maxLn-8 {
+			ln = maxLn - 8
+		}
 		if ta+ln > len(tsrc) {
 			ta = len(tsrc) - ln
 		}
@@ -130,11 +134,20 @@ func Case(w *vt.W, rng *rand.Rand, id, maxLen int) {
 	}
 	if self {
 		// repeats inside one sequence: segments of the first third are copied into disjoint slots of the second half
+		// The sources are disjoint as well (slots of the first third): two copies of one source region would
+		// occupy the same query range in the mirrored half of the complement comparison, where the aligner's
+		// recursion (which splits a trapezoid along the query axis only) reports one of them - a scenario of
+		// several interacting repeats that the property (a repeat in otherwise random sequence) does not cover.
 		half := len(T) / 2
 		for i := 0; i < nplants; i++ {
-			ta := rng.Intn(len(T) / 3)
-			a, b, rev, subs, indels, cp := place(nil, T[:half], ta)
 			slot := half / nplants
+			sslot := len(T) / 3 / nplants
+			ta := i*sslot + rng.Intn(sslot/4+1)
+			maxLn := slot - 2
+			if sslot-sslot/4-2 < maxLn {
+				maxLn = sslot - sslot/4 - 2
+			}
+			a, b, rev, subs, indels, cp := place(T[:(i+1)*sslot], ta, maxLn)
 			qa := half + i*slot + rng.Intn(slot-len(cp)-1)
 			copy(T[qa:qa+len(cp)], cp)
 			plants = append(plants, Plant{a, b, qa, qa + len(cp), rev, subs, indels, false})
@@ -145,11 +158,32 @@ func Case(w *vt.W, rng *rand.Rand, id, maxLen int) {
 		used := 0
 		for i := 0; i < nplants; i++ {
 			ta := rng.Intn(len(T) - 10)
-			a, b, rev, subs, indels, cp := place(Q, T, ta)
+			a, b, rev, subs, indels, cp := place(T, ta, len(Q)/nplants-2)
 			qa := used + rng.Intn(len(Q)/nplants-len(cp)-1)
 			copy(Q[qa:qa+len(cp)], cp)
 			used = (i + 1) * len(Q) / nplants
 			plants = append(plants, Plant{a, b, qa, qa + len(cp), rev, subs, indels, false})
+		}
+		// a short repeat (a fifth longer than the minimum) whose only differences are two substitutions near
+		// its ends, so that the k-mers it shares with the target span less than the minimum hit length
+		if ln := minLen * 6 / 5; rng.Intn(2) == 0 && int(float64(ln)*(1-minID)/3) >= 2 {
+			ta := rng.Intn(len(T) - ln)
+			cp := append([]byte{}, T[ta:ta+ln]...)
+			d := 7 + rng.Intn(4)
+			for _, pos := range []int{d, ln - 1 - d} {
+				cp[pos] = acgt[(indexOf(cp[pos])+1+rng.Intn(3))%4]
+			}
+			qa := rng.Intn(len(Q) - len(cp))
+			clash := false
+			for _, pl := range plants {
+				if qa < pl.QB+50 && pl.QA < qa+len(cp)+50 {
+					clash = true
+				}
+			}
+			if !clash {
+				copy(Q[qa:qa+len(cp)], cp)
+				plants = append(plants, Plant{ta, ta + ln, qa, qa + len(cp), false, 2, 0, false})
+			}
 		}
 		if rng.Intn(2) == 0 && minID <= 0.9 {
 			// a marginal repeat: minLen-2 letters of the target, with 5 letters inserted in the query copy
@@ -173,8 +207,17 @@ func Case(w *vt.W, rng *rand.Rand, id, maxLen int) {
 			}
 		}
 	}
+	w.Emit(runCase(id, T, Q, self, minLen, minID, plants))
+}
+
+// runCase runs Optimise, BuildIndex and both Align passes on one comparison and returns its record.
+func runCase(id int, T, Q []byte, self bool, minLen int, minID float64, plants []Plant) vt.Ev {
 	ev := vt.Ev{"id": id, "minlen": minLen, "minid_ppm": int(minID*1e6 + 0.5), "self": self, "tlen": len(T), "qlen": len(Q),
 		"plants": plantEvs(plants), "err": "", "panic": "", "passes": []vt.Ev{}}
+	if os.Getenv("VERIF_DUMP_CASE") == fmt.Sprint(id) {
+		// for replaying one case by hand: the sequences themselves
+		ev["T"], ev["Q"] = string(T), string(Q)
+	}
 	func() {
 		defer func() {
 			if p := recover(); p != nil {
@@ -223,7 +266,7 @@ func Case(w *vt.W, rng *rand.Rand, id, maxLen int) {
 					"err_ppm": int(h.Error*1e6 + 0.5), "ra": []int{}, "rb": []int{}}
 				// the letters of the two hit regions, when the hit lies inside the sequences and is not too long for TLC
 				if h.Abpos >= 0 && h.Aepos <= len(T) && h.Bbpos >= 0 && h.Bepos <= len(work) && h.Abpos <= h.Aepos && h.Bbpos <= h.Bepos &&
-					h.Aepos-h.Abpos <= 170 && h.Bepos-h.Bbpos <= 170 && len(hs) < 1 && id%RegionEvery == 0 {
+					h.Aepos-h.Abpos <= 170 && h.Bepos-h.Bbpos <= 170 && len(hs) < 1 && id < 1000000 && id%RegionEvery == 0 {
 					he["ra"] = idx(T[h.Abpos:h.Aepos])
 					he["rb"] = idx(work[h.Bbpos:h.Bepos])
 				}
@@ -234,7 +277,31 @@ func Case(w *vt.W, rng *rand.Rand, id, maxLen int) {
 		}
 		ev["passes"] = passes
 	}()
-	w.Emit(ev)
+	return ev
+}
+
+
+// SelfSweep: self comparisons of random sequences that carry a short tandem repeat (so that the filter has
+// hits a few diagonals above the main one) over a run of consecutive lengths (so that every position of the
+// tube grid relative to the main diagonal occurs), for settings whose error allowance is below the
+// aligner's band padding: the sequence matching itself must never be reported.
+func SelfSweep(w *vt.W, rng *rand.Rand, sets int) {
+	id := 0
+	for s := 0; s < sets; s++ {
+		minLen := []int{40, 50, 40, 60}[s%4]
+		minID := []float64{0.9, 0.94, 0.95, 0.94}[s%4]
+		base := 2500 + rng.Intn(2000)
+		period := 9 + rng.Intn(12)
+		for L := base; L < base+45; L++ {
+			T := randSeq(rng, L)
+			at := 200 + rng.Intn(L-600)
+			for i := period; i < 8*period; i++ {
+				T[at+i] = T[at+i-period]
+			}
+			w.Emit(runCase(1000000+id, T, T, true, minLen, minID, nil))
+			id++
+		}
+	}
 }
 
 func plantEvs(ps []Plant) []vt.Ev {
